@@ -490,7 +490,7 @@ func (s *astSeq) scenario() {
 	r := s.ag.g.R
 	p, t := s.target()
 	pick := func(xs ...string) string { return xs[r.Intn(len(xs))] }
-	switch r.Intn(12) {
+	switch r.Intn(14) {
 	case 0: // unset-then-index
 		s.step(pick("unset", "unseti"), p, t)
 		s.step(pick("idx", "get", "iter"), p, t)
@@ -549,6 +549,48 @@ func (s *astSeq) scenario() {
 		}
 		s.step(pick("add", "set"), p, t)
 		s.step("len", p, t)
+	case 11, 12: // the chunk boundary (_DEFAULT_NODE_CAP = 16): soft deletes on it, moves / pops / growth across it
+		n := t.n()
+		if n < 16 || (t.kind != 'a' && t.kind != 'o') {
+			s.step(astReadOps[r.Intn(len(astReadOps))], p, t)
+			break
+		}
+		edge := []int{15, 16, 31, 32}
+		at := func() int {
+			for tries := 0; tries < 8; tries++ {
+				if e := edge[r.Intn(len(edge))]; e < t.n() {
+					return e
+				}
+			}
+			return 15
+		}
+		e := at()
+		s.emit(p, "unseti", strconv.Itoa(e))
+		t.removeAt(e)
+		if r.Intn(2) == 0 && e-1 < t.n() {
+			s.emit(p, "unseti", strconv.Itoa(e-1))
+			t.removeAt(e - 1)
+		}
+		s.emit(p, "idx", strconv.Itoa(at()))
+		if t.kind == 'a' {
+			d, sr := at(), r.Intn(4)
+			if r.Intn(2) == 0 {
+				d, sr = sr, d
+			}
+			s.emit(p, "move", strconv.Itoa(d), strconv.Itoa(sr))
+			t.move(d, sr)
+		} else {
+			s.step(pick("get", "set", "sort"), p, t)
+		}
+		// shrink below the boundary, then grow over it again
+		for t.n() > 14 && r.Intn(6) != 0 {
+			s.emit(p, "pop")
+			t.removeAt(t.n() - 1)
+		}
+		for i := 0; i < 2+r.Intn(3); i++ {
+			s.step(pick("add", "set"), p, t)
+		}
+		s.step(pick("idx", "iter", "len"), p, t)
 	default:
 		s.step(astReadOps[r.Intn(len(astReadOps))], p, t)
 	}
